@@ -100,6 +100,7 @@ func ParseValueString(s string) (interface{}, error) {
 }
 
 func (p *parser) readByte() (b byte, err error) {
+	verifTick()
 	if p.onDeck != 0 {
 		b = p.onDeck
 		p.onDeck = 0
